@@ -51,15 +51,17 @@ Rule(svcs, first) ==
        ELSE svcs[CHOOSE k \in ok : \A j \in ok : k <= j].name
 
 \* ---- one connection, operationally --------------------------------------------
-VARIABLES conn,      \* [proto, ip, port, head, pad, r]  r = size of the client's first segment
+VARIABLES conn,      \* [proto, ip, port, head, pad, r, rs]  r = size of the client's first segment,
+                     \* rs = size of the buffer of the service's first Read
           phase,     \* "accepted" | "scanning" | "handling" | "closed"
           idx,       \* scan position
           cands,     \* candidate services
           peeked,    \* -1: no peek yet, else number of bytes in the peek buffer
           wrapped,   \* the service got the peek wrapper
           chosen,    \* service name or "none"
-          gotFrom, gotTo   \* the service has read stream bytes [gotFrom, gotTo)
-cvars == <<conn, phase, idx, cands, peeked, wrapped, chosen, gotFrom, gotTo>>
+          gotFrom, gotTo,  \* the service has read stream bytes [gotFrom, gotTo)
+          missing          \* ... except this many bytes in between (only with a deviation)
+cvars == <<conn, phase, idx, cands, peeked, wrapped, chosen, gotFrom, gotTo, missing>>
 
 StreamLen == Len(conn.head) + conn.pad
 Min(a, b) == IF a < b THEN a ELSE b
@@ -69,7 +71,7 @@ FirstSeg == LET n == Min(Min(conn.r, 1024), StreamLen) IN
 Accept(table, c) ==
   /\ conn' = c
   /\ cands' = Candidates(table, c)
-  /\ idx' = 1 /\ peeked' = -1 /\ wrapped' = FALSE /\ gotFrom' = 0 /\ gotTo' = 0
+  /\ idx' = 1 /\ peeked' = -1 /\ wrapped' = FALSE /\ gotFrom' = 0 /\ gotTo' = 0 /\ missing' = 0
   /\ IF cands' = <<>> THEN phase' = "closed" /\ chosen' = "none"
      ELSE IF Len(cands') = 1 THEN phase' = "handling" /\ chosen' = cands'[1].name
      ELSE phase' = "scanning" /\ chosen' = "none"
@@ -77,7 +79,7 @@ Accept(table, c) ==
 Peek ==
   /\ phase = "scanning" /\ idx <= Len(cands) /\ cands[idx].det # <<>> /\ peeked = -1
   /\ peeked' = Min(Min(conn.r, 1024), StreamLen)
-  /\ UNCHANGED <<conn, phase, idx, cands, wrapped, chosen, gotFrom, gotTo>>
+  /\ UNCHANGED <<conn, phase, idx, cands, wrapped, chosen, gotFrom, gotTo, missing>>
 
 ScanStep ==
   /\ phase = "scanning"
@@ -91,14 +93,17 @@ ScanStep ==
             /\ IF Accepts(s, FirstSeg)
                  THEN phase' = "handling" /\ chosen' = s.name /\ wrapped' = TRUE /\ UNCHANGED idx
                  ELSE idx' = idx + 1 /\ UNCHANGED <<phase, chosen, wrapped>>
-  /\ UNCHANGED <<conn, cands, peeked, gotFrom, gotTo>>
+  /\ UNCHANGED <<conn, cands, peeked, gotFrom, gotTo, missing>>
 
 \* the service drains the stream: through the wrapper from byte 0, on the raw connection
-\* from the first byte the socket still holds
+\* from the first byte the socket still holds.  Its first Read has a buffer of conn.rs bytes; the
+\* wrapper hands out the peeked bytes in as many Reads as it takes.
+\* Model regression "peek_tail_dropped": the wrapper gives up its buffer after ONE Read.
 SvcRead ==
   /\ phase = "handling" /\ gotTo < StreamLen
   /\ gotFrom' = IF wrapped \/ peeked < 0 THEN 0 ELSE peeked
   /\ gotTo' = StreamLen
+  /\ missing' = IF "peek_tail_dropped" \in Deviations /\ wrapped /\ peeked > conn.rs THEN peeked - conn.rs ELSE 0
   /\ UNCHANGED <<conn, phase, idx, cands, peeked, wrapped, chosen>>
 
 Done == \/ phase = "closed"
@@ -106,6 +111,6 @@ Done == \/ phase = "closed"
 
 \* ---- properties of a finished connection -----------------------------------------
 FirstInOrder == Done => chosen = Rule(cands, FirstSeg)
-StreamIntact == (Done /\ phase = "handling" /\ StreamLen > 0) => (gotFrom = 0 /\ gotTo = StreamLen)
+StreamIntact == (Done /\ phase = "handling" /\ StreamLen > 0) => (gotFrom = 0 /\ gotTo = StreamLen /\ missing = 0)
 NobodyIfNone == (phase = "closed") => (chosen = "none" /\ gotTo = 0)
 =============================================================================
